@@ -70,6 +70,14 @@ func (g *c18Gate) label() string {
 	return fmt.Sprintf("%s.%d:%s/%s:%s", g.mgr.id, g.mgr.gen, g.kind, g.phase, c18ShortKey(g.key))
 }
 
+// c18IsDel: the call removes a lease key (Release's plain Delete, or its guarded delete txn).
+func c18IsDel(g *c18Gate) bool { return g.kind == "delete" || g.kind == "txn-delete" }
+
+// c18IsWrite: the call may (re)write a lease key (acquire / reacquire, txn or plain put).
+func c18IsWrite(g *c18Gate) bool {
+	return g.kind == "txn-create" || g.kind == "txn-value" || g.kind == "txn-put" || g.kind == "put"
+}
+
 func c18ShortKey(k string) string {
 	if i := strings.LastIndex(k, "leases/"); i >= 0 {
 		return k[i+len("leases/"):]
@@ -93,6 +101,7 @@ type c18World struct {
 	adminCli *clientv3.Client
 	adminKV  clientv3.KV
 	mgrs     []*c18Mgr // live manager per slot
+	zombies  []*c18Mgr // superseded processes (same broker id as their slot's current manager) that still run
 	dead     []*c18Mgr
 	allGrant []clientv3.LeaseID
 	known    bool
@@ -271,7 +280,7 @@ func (k *c18KV) Put(_ context.Context, key, val string, opts ...clientv3.OpOptio
 	ctx, cancel := c18Ctx()
 	resp, err := k.inner.Put(ctx, key, val, opts...)
 	cancel()
-	if gerr := k.m.gate("put", "post", key, func(g *c18Gate) { g.callErr = err != nil }); gerr != nil {
+	if gerr := k.m.gate("put", "post", key, func(g *c18Gate) { g.callErr = err != nil; g.txnOK = err == nil }); gerr != nil {
 		return nil, gerr
 	}
 	return resp, err
@@ -330,22 +339,31 @@ func (t *c18Txn) Then(ops ...clientv3.Op) clientv3.Txn { t.thens = append(t.then
 func (t *c18Txn) Else(ops ...clientv3.Op) clientv3.Txn { t.elses = append(t.elses, ops...); return t }
 
 func (t *c18Txn) Commit() (*clientv3.TxnResponse, error) {
+	// classified by what the transaction can do, then by how it is guarded
 	kind, key := "txn", ""
 	if len(t.cmps) > 0 {
 		key = string(t.cmps[0].KeyBytes())
-		switch t.cmps[0].Target {
-		case pb.Compare_CREATE:
-			kind = "txn-create"
-		case pb.Compare_VALUE:
-			kind = "txn-value"
+	}
+	isDel, isPut := false, false
+	for _, op := range t.thens {
+		if op.IsDelete() {
+			isDel = true
+			key = string(op.KeyBytes())
 		}
-	} else {
-		for _, op := range t.thens {
-			if op.IsPut() {
-				key = string(op.KeyBytes())
-				kind = "txn-put"
-			}
+		if op.IsPut() {
+			isPut = true
+			key = string(op.KeyBytes())
 		}
+	}
+	switch {
+	case isDel:
+		kind = "txn-delete"
+	case isPut && len(t.cmps) > 0 && t.cmps[0].Target == pb.Compare_CREATE:
+		kind = "txn-create"
+	case isPut && len(t.cmps) > 0 && t.cmps[0].Target == pb.Compare_VALUE:
+		kind = "txn-value"
+	case isPut:
+		kind = "txn-put"
 	}
 	if err := t.k.m.gate(kind, "pre", key, nil); err != nil {
 		return nil, err
@@ -366,6 +384,13 @@ func (t *c18Txn) Commit() (*clientv3.TxnResponse, error) {
 	if gerr := t.k.m.gate(kind, "post", key, func(g *c18Gate) {
 		g.callErr = err != nil
 		g.txnOK = resp != nil && resp.Succeeded
+		if resp != nil && resp.Succeeded {
+			for _, r := range resp.Responses {
+				if d := r.GetResponseDeleteRange(); d != nil {
+					g.deleted += d.Deleted
+				}
+			}
+		}
 	}); gerr != nil {
 		return nil, gerr
 	}
@@ -442,12 +467,12 @@ func (w *c18World) readKeys() (map[string]string, error) {
 // eligible implements the exclusion of the listed finding: while a Release's delete for
 // key k has not been sent yet, a transaction that would (re)write k is not let through.
 func (w *c18World) eligible(g *c18Gate, parked []*c18Gate, keys map[string]string) bool {
-	if !w.known || g.phase != "pre" || (g.kind != "txn-create" && g.kind != "txn-value") {
+	if !w.known || g.phase != "pre" || !c18IsWrite(g) {
 		return true
 	}
 	pending := false
 	for _, h := range parked {
-		if h != g && h.kind == "delete" && h.phase == "pre" && h.key == g.key {
+		if h != g && c18IsDel(h) && h.phase == "pre" && h.key == g.key {
 			pending = true
 		}
 	}
@@ -455,7 +480,7 @@ func (w *c18World) eligible(g *c18Gate, parked []*c18Gate, keys map[string]strin
 		return true
 	}
 	val, present := keys[g.key]
-	wouldPut := (g.kind == "txn-create" && !present) || (g.kind == "txn-value" && present && val == g.mgr.id)
+	wouldPut := (g.kind == "txn-create" && !present) || (g.kind == "txn-value" && present && val == g.mgr.id) || g.kind == "put" || g.kind == "txn-put"
 	if wouldPut {
 		w.excluded = true
 		return false
@@ -494,7 +519,7 @@ func (w *c18World) step(g *c18Gate) (string, error) {
 	}
 	var preVal string
 	var prePresent bool
-	if g.kind == "delete" && g.phase == "pre" {
+	if c18IsDel(g) && g.phase == "pre" {
 		keys, err := w.readKeys()
 		if err != nil {
 			return "", err
@@ -512,10 +537,10 @@ func (w *c18World) step(g *c18Gate) (string, error) {
 		return "panic in lease manager: " + w.panicMsg, nil
 	}
 	now := w.parkedNow()
-	if strings.HasPrefix(g.kind, "txn") && g.phase == "pre" {
-		// the transaction has been executed; was a Release's delete for the same key waiting?
+	if c18IsWrite(g) && g.phase == "pre" {
+		// the write has been executed; was a Release's delete for the same key waiting?
 		for _, h := range now {
-			if h.kind == "delete" && h.phase == "pre" && h.key == g.key {
+			if c18IsDel(h) && h.phase == "pre" && h.key == g.key {
 				put := false
 				for _, p := range now {
 					if p.mgr == g.mgr && p.kind == g.kind && p.phase == "post" && p.key == g.key && p.txnOK {
@@ -530,9 +555,9 @@ func (w *c18World) step(g *c18Gate) (string, error) {
 			}
 		}
 	}
-	if g.kind == "delete" && g.phase == "pre" && prePresent && preVal != g.mgr.id {
+	if c18IsDel(g) && g.phase == "pre" && prePresent && preVal != g.mgr.id {
 		for _, p := range now {
-			if p.mgr == g.mgr && p.kind == "delete" && p.phase == "post" && p.key == g.key && p.deleted > 0 {
+			if p.mgr == g.mgr && p.kind == g.kind && p.phase == "post" && p.key == g.key && p.deleted > 0 {
 				return fmt.Sprintf("Release by %s deleted lease key %s that held broker id %q (a lease another broker has since acquired)",
 					g.mgr.id, g.key, preVal), nil
 			}
@@ -626,7 +651,7 @@ func (w *c18World) expire(m *c18Mgr) (bool, error) {
 		return false, nil
 	}
 	for _, g := range w.parkedNow() {
-		if g.mgr == m && g.phase == "post" && strings.HasPrefix(g.kind, "txn") {
+		if g.mgr == m && g.phase == "post" && c18IsWrite(g) {
 			w.postGateExpire = true
 		}
 	}
@@ -654,11 +679,9 @@ func (w *c18World) expire(m *c18Mgr) (bool, error) {
 	return true, nil
 }
 
-// crashRestart kills the broker process in the slot (in-flight calls never return to it,
-// keep-alives stop, its etcd lease lingers until lapse) and starts a new manager with the
-// same broker id.
-func (w *c18World) crashRestart(slot int) error {
-	old := w.mgrs[slot]
+// kill ends a broker process: in-flight calls never return to it, keep-alives stop, its etcd
+// lease lingers until lapse.
+func (w *c18World) kill(old *c18Mgr) error {
 	w.mu.Lock()
 	old.dead.Store(true)
 	var mine []*c18Gate
@@ -676,9 +699,51 @@ func (w *c18World) crashRestart(slot int) error {
 		return err
 	}
 	w.dead = append(w.dead, old)
+	return nil
+}
+
+// crashRestart kills the broker process in the slot and starts a new manager with the same
+// broker id.
+func (w *c18World) crashRestart(slot int) error {
+	old := w.mgrs[slot]
+	if err := w.kill(old); err != nil {
+		return err
+	}
 	w.mgrs[slot] = w.newMgr(slot, old.gen+1)
 	w.trace = append(w.trace, fmt.Sprintf("crash-restart(%s)", old.id))
 	return nil
+}
+
+// takeover starts a replacement process with the same broker id while the old process is
+// still alive (rescheduled pod, old one draining / partitioned but its etcd session healthy).
+// The old process ("zombie") starts no new acquires; its pending releases continue and it may
+// still call Release / ReleaseAll; it ends with zombieExit. Both instances are the same broker
+// to the lease scheme, so the oracle looks at the slot's current instance only.
+func (w *c18World) takeover(slot int) error {
+	old := w.mgrs[slot]
+	if len(old.inAcq) > 0 {
+		return w.crashRestart(slot)
+	}
+	w.zombies = append(w.zombies, old)
+	w.mgrs[slot] = w.newMgr(slot, old.gen+1)
+	w.trace = append(w.trace, fmt.Sprintf("takeover(%s: gen %d keeps running, gen %d starts)", old.id, old.gen, old.gen+1))
+	return nil
+}
+
+func (w *c18World) zombieExit(i int) error {
+	z := w.zombies[i]
+	w.zombies = append(w.zombies[:i], w.zombies[i+1:]...)
+	w.trace = append(w.trace, fmt.Sprintf("old-process-exits(%s.%d)", z.id, z.gen))
+	return w.kill(z)
+}
+
+func (w *c18World) lapsePending() bool {
+	for _, m := range w.dead {
+		if len(m.grants) > 0 {
+			return true
+		}
+	}
+	return false
 }
 
 // lapse lets the etcd leases of crashed processes run out.
@@ -727,14 +792,14 @@ func (w *c18World) finish(nres int) (string, error) {
 
 func (w *c18World) cleanup() {
 	// abandon whatever is still parked, stop the managers, drop leases and keys
-	for _, m := range w.mgrs {
+	for _, m := range append(append([]*c18Mgr{}, w.mgrs...), w.zombies...) {
 		m.dead.Store(true)
 	}
 	for _, g := range w.parkedNow() {
 		w.unpark(g, errC18Crashed)
 	}
 	_ = w.waitQuiet()
-	for _, m := range append(append([]*c18Mgr{}, w.mgrs...), w.dead...) {
+	for _, m := range append(append(append([]*c18Mgr{}, w.mgrs...), w.dead...), w.zombies...) {
 		m.cancel()
 	}
 	w.mu.Lock()
@@ -798,13 +863,16 @@ func (e *c18Env) world(st *vfkit.Stats, kind string, nm int, known bool) *c18Wor
 func c18Slow(mode string, g *c18Gate) bool {
 	switch mode {
 	case "delete":
-		return g.kind == "delete" && g.phase == "pre"
+		return c18IsDel(g) && g.phase == "pre"
+	case "rewrite":
+		// the second step of a re-acquire (guarded txn or plain put on a key that already exists)
+		return (g.kind == "txn-value" || g.kind == "put" || g.kind == "txn-put") && g.phase == "pre"
 	case "post":
 		return g.phase == "post"
 	case "b0":
 		return g.mgr.slot == 0
 	case "txn-pre":
-		return strings.HasPrefix(g.kind, "txn") && g.phase == "pre"
+		return c18IsWrite(g) && g.phase == "pre"
 	}
 	return false
 }
@@ -827,8 +895,8 @@ func TestVF_C18_Schedules(t *testing.T) {
 		kind := rapid.SampledFrom([]string{"partition", "group"}).Draw(rt, "kind")
 		nm := rapid.IntRange(2, 3).Draw(rt, "managers")
 		nres := rapid.SampledFrom([]int{1, 1, 2}).Draw(rt, "resources")
-		nops := rapid.IntRange(3, 9).Draw(rt, "nops")
-		slow := rapid.SampledFrom([]string{"none", "delete", "delete", "post", "b0", "txn-pre"}).Draw(rt, "slow")
+		nops := rapid.IntRange(4, 10).Draw(rt, "nops")
+		slow := rapid.SampledFrom([]string{"none", "delete", "delete", "rewrite", "rewrite", "rewrite", "post", "b0", "txn-pre"}).Draw(rt, "slow")
 		w := env.world(st, kind, nm, known)
 		defer w.cleanup()
 		var ops []string
@@ -847,12 +915,22 @@ func TestVF_C18_Schedules(t *testing.T) {
 		launchOne := func() {
 			launched++
 			opk := rapid.SampledFrom([]string{"acquire", "acquire", "acquire", "acquire", "acquire", "acquire", "release", "release", "release", "release",
-				"expire", "expire", "releaseAll", "crash", "lapse"}).Draw(rt, "op")
-			if opk == "lapse" && len(w.dead) == 0 {
-				opk = "expire"
+				"expire", "expire", "releaseAll", "crash", "crash", "takeover"}).Draw(rt, "op")
+			// a lease key is free while another broker's write for it is still on its way: that is
+			// the moment a competing acquire is most interesting, so it is usually started now
+			racing := false
+			if keys, err := w.readKeys(); err == nil {
+				for _, g := range w.parkedNow() {
+					if _, present := keys[g.key]; !present && g.key != "" && g.phase == "pre" && c18IsWrite(g) {
+						racing = true
+					}
+				}
+			}
+			if racing && rapid.IntRange(0, 3).Draw(rt, "raceAcquire") > 0 {
+				opk = "acquire-race"
 			}
 			switch opk {
-			case "acquire":
+			case "acquire", "acquire-race":
 				// an Acquire that is not already in flight for that manager (singleflight merges those)
 				type mr struct{ slot, r int }
 				var free []mr
@@ -867,7 +945,35 @@ func TestVF_C18_Schedules(t *testing.T) {
 					ops = append(ops, "skip-acquire")
 					return
 				}
-				pk := free[rapid.IntRange(0, len(free)-1).Draw(rt, "freeIdx")]
+				// half of the time prefer the interesting re-acquire shapes: the etcd key already holds
+				// this broker's id (restart / takeover), or a Release of it is still in flight
+				// ... or the key is free while ANOTHER broker's write for it is still on its way
+				var hot []mr
+				if keys, err := w.readKeys(); err == nil {
+					parked := w.parkedNow()
+					for _, c := range free {
+						m := w.mgrs[c.slot]
+						_, present := keys[w.key(c.r)]
+						race := false
+						for _, g := range parked {
+							if !present && g.mgr != m && g.key == w.key(c.r) && g.phase == "pre" && c18IsWrite(g) {
+								race = true
+							}
+						}
+						if race {
+							hot = append(hot, c, c)
+						}
+						if m.inRel[c.r] || (keys[w.key(c.r)] == m.id && !m.owns(c.r)) {
+							hot = append(hot, c)
+						}
+					}
+				}
+				var pk mr
+				if len(hot) > 0 && (opk == "acquire-race" || rapid.Bool().Draw(rt, "reacquireShape")) {
+					pk = hot[rapid.IntRange(0, len(hot)-1).Draw(rt, "hotIdx")]
+				} else {
+					pk = free[rapid.IntRange(0, len(free)-1).Draw(rt, "freeIdx")]
+				}
 				slot, r := pk.slot, pk.r
 				m := w.mgrs[slot]
 				m.inAcq[r] = true
@@ -892,13 +998,16 @@ func TestVF_C18_Schedules(t *testing.T) {
 					w.mu.Unlock()
 				}))
 			case "release":
-				// prefer a (manager, resource) that is owned right now
-				type mr struct{ slot, r int }
+				// prefer a (process, resource) that is owned right now; superseded processes count
+				type mr struct {
+					m *c18Mgr
+					r int
+				}
 				var owned []mr
-				for s, m := range w.mgrs {
+				for _, m := range append(append([]*c18Mgr{}, w.mgrs...), w.zombies...) {
 					for r := 0; r < nres; r++ {
 						if m.owns(r) && !m.inRel[r] {
-							owned = append(owned, mr{s, r})
+							owned = append(owned, mr{m, r})
 						}
 					}
 				}
@@ -906,16 +1015,16 @@ func TestVF_C18_Schedules(t *testing.T) {
 				if len(owned) > 0 && rapid.IntRange(0, 9).Draw(rt, "releaseOwned") > 0 {
 					pick = owned[rapid.IntRange(0, len(owned)-1).Draw(rt, "ownedIdx")]
 				} else {
-					pick = mr{rapid.IntRange(0, nm-1).Draw(rt, "slot"), rapid.IntRange(0, nres-1).Draw(rt, "res")}
+					pick = mr{w.mgrs[rapid.IntRange(0, nm-1).Draw(rt, "slot")], rapid.IntRange(0, nres-1).Draw(rt, "res")}
 				}
-				m := w.mgrs[pick.slot]
+				m := pick.m
 				if m.inRel[pick.r] {
 					ops = append(ops, "skip-release")
 					return
 				}
 				m.inRel[pick.r] = true
-				ops = append(ops, fmt.Sprintf("release(b%d,%d)", pick.slot, pick.r))
-				w.trace = append(w.trace, fmt.Sprintf("start release(b%d,%d)", pick.slot, pick.r))
+				ops = append(ops, fmt.Sprintf("release(%s.%d,%d)", m.id, m.gen, pick.r))
+				w.trace = append(w.trace, fmt.Sprintf("start release(%s.%d,%d)", m.id, m.gen, pick.r))
 				fail("", w.launch(func() {
 					m.release(pick.r)
 					w.mu.Lock()
@@ -923,10 +1032,10 @@ func TestVF_C18_Schedules(t *testing.T) {
 					w.mu.Unlock()
 				}))
 			case "releaseAll":
-				slot := rapid.IntRange(0, nm-1).Draw(rt, "slot")
-				m := w.mgrs[slot]
-				ops = append(ops, fmt.Sprintf("releaseAll(b%d)", slot))
-				w.trace = append(w.trace, fmt.Sprintf("start releaseAll(b%d)", slot))
+				procs := append(append([]*c18Mgr{}, w.mgrs...), w.zombies...)
+				m := procs[rapid.IntRange(0, len(procs)-1).Draw(rt, "proc")]
+				ops = append(ops, fmt.Sprintf("releaseAll(%s.%d)", m.id, m.gen))
+				w.trace = append(w.trace, fmt.Sprintf("start releaseAll(%s.%d)", m.id, m.gen))
 				m.closed = true
 				fail("", w.launch(m.releaseAll))
 			case "expire":
@@ -952,16 +1061,29 @@ func TestVF_C18_Schedules(t *testing.T) {
 				} else {
 					ops = append(ops, fmt.Sprintf("expire-noop(b%d)", slot))
 				}
-			case "crash":
-				slot := rapid.IntRange(0, nm-1).Draw(rt, "slot")
-				ops = append(ops, fmt.Sprintf("crash-restart(b%d)", slot))
-				fail("", w.crashRestart(slot))
-			case "lapse":
-				n, err := w.lapse()
-				fail("", err)
-				ops = append(ops, fmt.Sprintf("lapse(%d)", n))
-				if n > 0 {
-					st.Class("op-lapse-dead-lease")
+			case "crash", "takeover":
+				// mostly a broker that holds something
+				var holders []int
+				for s, m := range w.mgrs {
+					for r := 0; r < nres; r++ {
+						if m.owns(r) {
+							holders = append(holders, s)
+							break
+						}
+					}
+				}
+				slot := 0
+				if len(holders) > 0 && rapid.IntRange(0, 4).Draw(rt, "crashHolder") > 0 {
+					slot = holders[rapid.IntRange(0, len(holders)-1).Draw(rt, "holderIdx")]
+				} else {
+					slot = rapid.IntRange(0, nm-1).Draw(rt, "slot")
+				}
+				if opk == "crash" {
+					ops = append(ops, fmt.Sprintf("crash-restart(b%d)", slot))
+					fail("", w.crashRestart(slot))
+				} else {
+					ops = append(ops, fmt.Sprintf("takeover(b%d)", slot))
+					fail("", w.takeover(slot))
 				}
 			}
 		}
@@ -970,14 +1092,15 @@ func TestVF_C18_Schedules(t *testing.T) {
 			fail("", err)
 			n := len(el)
 			canLaunch := launched < nops
-			if n == 0 && !canLaunch {
+			envLapse := w.lapsePending()
+			if n == 0 && !canLaunch && !envLapse && len(w.zombies) == 0 {
 				break
 			}
 			// weighted choice: the case's "slow" class of calls is 5x less likely to be picked,
 			// which is what makes stale calls (a delayed Delete, a delayed answer) common
 			var choice []int // index into el, or -1 = start the next operation
 			for gi, g := range el {
-				wgt := 5
+				wgt := 6
 				if c18Slow(slow, g) {
 					wgt = 1
 				}
@@ -990,10 +1113,43 @@ func TestVF_C18_Schedules(t *testing.T) {
 					choice = append(choice, -1)
 				}
 			}
+			// environment events are always on offer: the etcd leases of crashed processes run
+			// out (-2), a superseded process finally exits (-3-k)
+			if envLapse {
+				for k := 0; k < 4; k++ {
+					choice = append(choice, -2)
+				}
+			}
+			for zi := range w.zombies {
+				choice = append(choice, -3-zi)
+			}
 			i := choice[rapid.IntRange(0, len(choice)-1).Draw(rt, "pick")]
 			if i >= 0 {
 				v, err := w.step(el[i])
 				fail(v, err)
+			} else if i == -2 {
+				nl, err := w.lapse()
+				fail("", err)
+				ops = append(ops, fmt.Sprintf("lapse(%d)", nl))
+				lapseWhileAcquire, lapseBeforeRewrite := false, false
+				for _, g := range w.parkedNow() {
+					if c18IsWrite(g) {
+						lapseWhileAcquire = true
+					}
+					if (g.phase == "pre" && (g.kind == "txn-value" || g.kind == "put" || g.kind == "txn-put")) || (g.phase == "post" && g.kind == "txn-create" && !g.txnOK && !g.callErr) {
+						lapseBeforeRewrite = true
+					}
+				}
+				if nl > 0 && lapseWhileAcquire {
+					w.contended = true
+					st.Class("dead-lease-lapses-while-an-acquire-is-in-flight")
+				}
+				if nl > 0 && lapseBeforeRewrite {
+					st.Class("dead-lease-lapses-between-reacquire-read-and-write")
+				}
+			} else if i <= -3 {
+				ops = append(ops, "old-process-exits")
+				fail("", w.zombieExit(-3-i))
 			} else {
 				launchOne()
 				if w.panicMsg != "" {
@@ -1050,6 +1206,15 @@ func c18Find(w *c18World, m *c18Mgr, kind, phase string) *c18Gate {
 	return nil
 }
 
+func c18FindDel(w *c18World, m *c18Mgr) *c18Gate {
+	for _, g := range w.parkedNow() {
+		if g.mgr == m && c18IsDel(g) && g.phase == "pre" {
+			return g
+		}
+	}
+	return nil
+}
+
 // c18DrainExcept lets everything run except the given gate.
 func c18DrainExcept(w *c18World, keep *c18Gate, nres int) (string, error) {
 	for {
@@ -1098,7 +1263,7 @@ func c18Witness(env *c18Env, st *vfkit.Stats, kind string, sameBroker bool) (vio
 	if !do("", w.launch(func() { a.release(0) })) {
 		return
 	}
-	del := c18Find(w, a, "delete", "pre")
+	del := c18FindDel(w, a)
 	if del == nil {
 		// Release no longer issues a plain Delete call: the finding's mechanism is gone
 		_, e := c18DrainExcept(w, nil, 1)
@@ -1119,7 +1284,7 @@ func c18Witness(env *c18Env, st *vfkit.Stats, kind string, sameBroker bool) (vio
 	if !do(c18DrainExcept(w, del, 1)) {
 		return
 	}
-	if still := c18Find(w, a, "delete", "pre"); still != nil {
+	if still := c18FindDel(w, a); still != nil {
 		if !do(w.step(still)) {
 			return
 		}
